@@ -262,12 +262,12 @@ class Game:
     __slots__ = ("seed", "style", "moves", "cfen", "fens", "stats", "want")
 
 
-def make_games(ctx, harness, driver, n_games, n_bound_prefix):
+def make_games(ctx, harness, driver, n_games, n_bound_prefix, style_pool=None, short=False):
     r = ctx.rng
     gl, styles = [], []
     for _ in range(n_games):
-        st = r.choice([0, 0, 1, 1, 1, 2, 2, 3, 3, 3, 6, 7, 8, 8, 9, 10, 16, 16, 32, 32])     # bit 0 promotion-, bit 1 castling/e.p.-seeking, bit 2 stop at an e.p. right, bit 3 pawn-capture seeking, bit 4 / 5 one-sided pawn relays (white / black captures with pawns and keeps all its pawns)
-        plies = r.randrange(1, 151) if not (st & 56) or r.random() < 0.3 else r.randrange(4, 31)   # pawn-structure games mostly short: the pawn rules bite while many pawns are near home
+        st = r.choice(style_pool or [0, 0, 1, 1, 1, 2, 2, 3, 3, 3, 6, 7])     # bit 0 promotion-, bit 1 castling/e.p.-seeking, bit 2 stop at an e.p. right, bit 3 pawn-capture seeking, bit 4 / 5 one-sided pawn relays (white / black captures with pawns and keeps all its pawns)
+        plies = r.randrange(4, 25) if short else r.randrange(1, 151) if not (st & 56) or r.random() < 0.3 else r.randrange(4, 31)   # pawn-structure games mostly short: the pawn rules bite while many pawns are near home
         gl.append(f"pg gengame {r.getrandbits(48)} {plies} {MIN_MEN} {st}"); styles.append(st)
     out = run_chunks(harness, gl, JOBS, chunk=50)
     games, scan = [], []
@@ -437,6 +437,9 @@ def run(ctx):
     n_games = 300 if quick else 5000
     games, tot = make_games(ctx, harness, driver, n_games, 6)
     ctx.log(f"{len(games)} games generated and re-played by the Lean specification")
+    # short pawn-structure games for the API monitor only (cheap: ~1.5 ms per pair): every prefix against its own continuation
+    xgames, xtot = make_games(ctx, harness, driver, 1400 if quick else 12000, 0, style_pool=[16, 32, 24, 40, 8, 17, 33], short=True)
+    ctx.log(f"{len(xgames)} short pawn-structure games for the bound monitor")
 
     # ---- (c) distribution --------------------------------------------------------------------------------------
     finals = [g.fens[len(g.moves)] for g in games]
@@ -474,11 +477,12 @@ def run(ctx):
 
     # ---- (b1) ProofGame API on (prefix, final) pairs -----------------------------------------------------------
     bl, bmeta = [], []
-    for g in games:
+    xset = set(id(g) for g in xgames)
+    for g in games + xgames:
         n = len(g.moves)
         for k in sorted(g.fens):
             if k == n and n > 0 and r.random() < 0.9: continue       # (final, final) only now and then
-            mode = 1 if (k > 0 and r.random() < (0.25 if quick else 0.3)) else 0     # kernel search from the initial position is what the filter does
+            mode = 1 if (id(g) not in xset and k > 0 and r.random() < (0.25 if quick else 0.3)) else 0     # kernel search from the initial position is what the filter does
             bl.append(f"pg bound {mode} {g.fens[k]} {g.fens[n]}"); bmeta.append((g, k))
     pl = [f"pg pair {g.fens[k]} {g.fens[len(g.moves)]}" for g, k in bmeta]
     t0 = time.time()
